@@ -202,7 +202,7 @@ func TestC04(t *testing.T) {
 	}
 	depth := vk.Pick(run, 3, 4)
 	a := alphaOpts{MaxSlice: 3, Gapped: run.Thorough(), Reversed: true, Deletes: true, Restart: true, ReadAll: true, AppendDel: true}
-	dl := vk.NewDeadline(vk.Pick(run, 8*time.Minute, 100*time.Minute))
+	dl := vk.NewDeadline(vk.Pick(run, 8*time.Minute, 45*time.Minute))
 	run.Set("depth", depth)
 	totalStates, totalTrans := 0, 0
 	var perCfg []string
